@@ -454,3 +454,21 @@ Definition jstep_seeded (parse : string -> parse_result) (s : jstate) (e : jev) 
   end.
 Definition jrun (parse : string -> parse_result) (cv : list name) (next : N) (es : list jev) : jstate :=
   fold_left (jstep parse) es (mkJ (init_state cv next) None).
+
+(* ---------------------------------------------------------------- the definition of a mark tag *)
+(* UpdateTag rewrites the definition TEXT of a mark tag: MarkAddStream appends the newly marked ids to
+   the id list (or renders the list from the matches when the text is not a plain list, fixes/C12-2),
+   MarkDelStream renders the list from the matches.  A restart rebuilds the matches from that text.
+   Modelled at the level of the id list the text denotes; that the decimal text denotes that list is
+   checked on the real code through the real parser (oracle of checks/c11.py, restart oracle of C12). *)
+Record markdef := mkMD { md_ids : list N; md_matches : list N }.
+Inductive markop := MAdd (l : list N) | MDel (l : list N).
+
+Definition md_add_one (m : markdef) (s : N) : markdef :=
+  if mem_n s (md_matches m) then m else mkMD (md_ids m ++ [s]) (s :: md_matches m).
+Definition md_step (m : markdef) (o : markop) : markdef :=
+  match o with
+  | MAdd l => fold_left md_add_one l m
+  | MDel l => let ms := filter (fun s => negb (mem_n s l)) (md_matches m) in mkMD ms ms
+  end.
+Definition md_init (ids : list N) : markdef := mkMD ids ids.
